@@ -354,6 +354,22 @@ def c10_fn(inp):
             for ordmin in (0, 1, 2):
                 tables.append((f"crafted seed={seed} shape=({n_rows},{n_cols}) ordmin={ordmin}", Fn, Xi, Phi, ordmin,
                                n_cols - 1 - (seed % 2), 0.01, 0.05, 0.03))
+    # a pole bracketed by two candidates of the previous order at nearly equal distances whose verdicts differ: "nearest" is the
+    # smallest ABSOLUTE frequency distance (a relative or squared-relative distance picks the other one)
+    for k, (f0, delta, eps) in enumerate(((10.0, 0.05, 0.002), (2.0, 0.3, 0.05), (40.0, 1.0, 0.01), (1.0, 0.2, 0.1))):
+        for near_is_low in (True, False):
+            a, b = f0 - delta * (1 if near_is_low else 1 + eps), f0 + delta * (1 + eps if near_is_low else 1)
+            sh = [np.array([1.0, 0.5, -0.3], dtype=complex), np.array([0.2, -1.0, 0.7], dtype=complex)]
+            Fn = np.full((3, 4), np.nan)
+            Xi = np.full((3, 4), np.nan)
+            Phi = np.full((3, 4, 3), np.nan, dtype=complex)
+            Fn[:2, 2], Xi[:2, 2] = [a, b], [0.02, 0.02]
+            Phi[0, 2], Phi[1, 2] = sh[0], sh[1]
+            Fn[0, 3], Xi[0, 3] = f0, 0.02
+            for match in (0, 1):
+                P = Phi.copy()
+                P[0, 3] = sh[match]
+                tables.append((f"bracketed pole {k} (candidates {a:.4f} / {b:.4f} around {f0}, shape of candidate {match})", Fn.copy(), Xi.copy(), P, 0, 3, 0.5, 0.5, 0.05))
     for (what, Fn, Xi, Phi, ordmin, ordmax, ef, ex, ep) in tables:
         if ordmax >= Fn.shape[1] or ordmin < 0:
             continue
@@ -809,6 +825,14 @@ def c18_indicators(inp):
                 bad.append("MAC: table orientation / symmetry fails")
             if abs(float(gen.MAC(cfac * r, r.astype(complex))) - 1) > 1e-9:
                 bad.append(f"MAC of a collinear pair is {float(gen.MAC(cfac * r, r.astype(complex)))}")
+            # operands of different dtypes: an identified complex shape (set) against real reference shapes, and the reverse
+            ra, RA = rng.randn(n), rng.randn(n, 2)
+            for xx, aa, what in ((x, ra, "complex vector, real vector"), (ra, x, "real vector, complex vector"), (X, RA, "complex set, real set"),
+                                 (RA, X, "real set, complex set"), (cfac * r, r, "collinear complex multiple of a real shape")):
+                Mm = np.atleast_2d(np.asarray(gen.MAC(xx, aa), dtype=float))
+                ref = np.array([[mac_ref(xc, ac) for ac in np.atleast_2d(aa.T)] for xc in np.atleast_2d(xx.T)])
+                if Mm.shape != ref.shape or not np.allclose(Mm, ref, atol=1e-9) or not np.allclose(np.atleast_2d(np.asarray(gen.MAC(aa, xx), dtype=float)), Mm.T, atol=1e-9):
+                    bad.append(f"MAC ({what}): {np.round(Mm, 6).tolist()} instead of {np.round(ref, 6).tolist()} (or not symmetric up to transposition)")
             mcf = float(gen.MCF(x)[0])
             if not (-1e-12 <= mcf <= 1 + 1e-12) or abs(float(gen.MCF(cfac * x)[0]) - mcf) > 1e-8 or abs(float(gen.MCF(cfac * r)[0])) > 1e-9:
                 bad.append(f"MCF range/invariance/collinear fails: {mcf}, {float(gen.MCF(cfac * x)[0])}, {float(gen.MCF(cfac * r)[0])}")
@@ -878,9 +902,18 @@ def c20_plots(inp):
             want_st = Counter((round(float(Fn[r, c_]), 9), float(c_)) for r in range(n0) for c_ in range(n1) if Lab[r, c_] == 1 and np.isfinite(Fn[r, c_]))
             want_un = Counter((round(float(Fn[r, c_]), 9), float(c_)) for r in range(n0) for c_ in range(n1) if Lab[r, c_] == 0 and np.isfinite(Fn[r, c_]))
             try:
-                fig, ax = plot.stab_plot(Fn.copy(), Lab.copy(), 1, n1 - 1 if trial % 2 else n1 + 2, ordmin=0, hide_poles=hide, Fn_cov=Fc)
+                if trial % 4 == 1:
+                    # the caller's own axes: the top panel of a two-panel figure (pyplot's current axes is the bottom one)
+                    fig0, (ax0, ax_other) = plt.subplots(2, 1)
+                    fig, ax = plot.stab_plot(Fn.copy(), Lab.copy(), 1, n1 - 1 if trial % 2 else n1 + 2, ordmin=0, hide_poles=hide, Fn_cov=Fc, fig=fig0, ax=ax0)
+                    if ax is not ax0 or ax_other.get_lines() or ax_other.collections:
+                        plt.close("all")
+                        return {"reproduced": True, "detail": f"stab_plot(hide_poles={hide}) given the top panel of a two-panel figure: returned another axes or drew "
+                                                              f"{len(ax_other.get_lines())} line(s) / {len(ax_other.collections)} marker collection(s) on the OTHER panel"}
+                else:
+                    fig, ax = plot.stab_plot(Fn.copy(), Lab.copy(), 1, n1 - 1 if trial % 2 else n1 + 2, ordmin=0, hide_poles=hide, Fn_cov=Fc)
                 st, un = stable_unstable(ax)
-                plt.close(fig)
+                plt.close("all")
             except Exception as e:      # noqa: BLE001
                 return {"reproduced": True, "detail": f"stab_plot raised {type(e).__name__}: {e}"}
             if st != want_st or (not hide and un != want_un) or (hide and sum(un.values())):
@@ -2169,8 +2202,8 @@ def _c08_same_tables(a, b, tol, what):
 
 
 def c08_meta(inp):
-    from pyoma2.algorithms import EFDD, FDD, FSDD, SSIcov, SSIdat, pLSCF
-    from pyoma2.setup import SingleSetup
+    from pyoma2.algorithms import EFDD, EFDD_MS, FDD, FDD_MS, FSDD, SSIcov, SSIcov_MS, SSIdat, SSIdat_MS, pLSCF, pLSCF_MS
+    from pyoma2.setup import MultiSetup_PreGER, SingleSetup
     rng = np.random.RandomState(int(inp.get("seed", 8)))
     ntr = int(inp.get("trials", 2))
     hc = dict(conj=True, xi_max=0.5, mpc_lim=0.0, mpd_lim=10.0, cov_max=1e9)
@@ -2258,11 +2291,73 @@ def c08_meta(inp):
             err = _c08_same_tables(want, got, 1e-5, f"{kind}: channels permuted {perm.tolist()}")
             if err:
                 return {"reproduced": True, "detail": err}
-    never = sorted(set(algs()) - ran)
+            # (d) orthogonal mixing y -> y Q^T: frequencies and damping unchanged, every shape rotated by Q (compared by MAC, which
+            # does not see the re-normalisation to the new largest component)
+            Q = np.linalg.qr(rng.randn(nch, nch))[0]
+            try:
+                got = run(kind, y @ Q.T, fs, sel)
+            except Exception as ex:      # noqa: BLE001
+                return {"reproduced": True, "detail": f"{kind}: orthogonally mixed channels raise {type(ex).__name__}: {ex} (the original run succeeds)"}
+            want = dict(base)
+            if "Phi_poles" in want:
+                want["Phi_poles"] = want["Phi_poles"] @ Q.T
+            if "Phi" in want and want["Phi"].ndim == 2:
+                want["Phi"] = Q @ want["Phi"]
+                want["Phi"] = want["Phi"] / want["Phi"][np.argmax(np.abs(want["Phi"]), axis=0), np.arange(want["Phi"].shape[1])]
+            for k_ in ("S_vec",):
+                want.pop(k_, None)
+            err = _c08_same_tables(want, got, 1e-5, f"{kind}: channels mixed by a random orthogonal matrix")
+            if err:
+                return {"reproduced": True, "detail": err}
+        # ---- the multi-setup variants (two setups sharing two reference channels): gain and time unit --------------------
+        def ms_algs():
+            return {"FDD_MS": lambda: FDD_MS(name="a", nxseg=256, method_SD="per"), "EFDD_MS": lambda: EFDD_MS(name="a", nxseg=256, method_SD="per"),
+                    "EFDD_MScor": lambda: EFDD_MS(name="a", nxseg=256, method_SD="cor"),
+                    "SSIcov_MS": lambda: SSIcov_MS(name="a", br=8, ordmax=8, hc=hc), "SSIdat_MS": lambda: SSIdat_MS(name="a", br=8, ordmax=8, hc=hc),
+                    "pLSCF_MS": lambda: pLSCF_MS(name="a", ordmax=5, nxseg=256, hc=hc), "pLSCF_MScor": lambda: pLSCF_MS(name="a", ordmax=5, nxseg=256, method_SD="cor", hc=hc)}
+
+        def run_ms(kind, yy, fs_, sel_):
+            sets = [yy[:, [0, 1] + list(range(2, 2 + (nch - 2 + 1) // 2))].copy(), yy[:, [0, 1] + list(range(2 + (nch - 2 + 1) // 2, nch))].copy()]
+            if sets[1].shape[1] == 2:
+                sets[1] = yy[:, [0, 1, nch - 1]].copy()
+            ms = MultiSetup_PreGER(fs=fs_, ref_ind=[[0, 1], [0, 1]], datasets=sets)
+            a = ms_algs()[kind]()
+            ms.add_algorithms(a)
+            ms.run_by_name("a")
+            if kind.startswith("FDD"):
+                ms.mpe("a", sel_freq=sel_, DF=0.08 * fs_ / 20.0)
+            elif kind.startswith("EFDD"):
+                ms.mpe("a", sel_freq=sel_, DF1=0.08 * fs_ / 20.0, DF2=1.0 * fs_ / 20.0, sppk=1, npmax=6)
+            return _c08_tables(a)
+        for kind in ms_algs():
+            try:
+                base = run_ms(kind, y, fs, sel)
+            except Exception as ex:      # noqa: BLE001
+                skipped.setdefault(kind, f"{type(ex).__name__}: {ex}")
+                continue
+            ran.add(kind)
+            for gain in (2.0 ** -20, 2.0 ** 20):
+                try:
+                    got = run_ms(kind, y * gain, fs, sel)
+                except Exception as ex:      # noqa: BLE001
+                    return {"reproduced": True, "detail": f"{kind}: data multiplied by {gain:g} raises {type(ex).__name__}: {ex} (the unscaled run succeeds)"}
+                err = _c08_same_tables(base, got, 1e-9, f"{kind}: data multiplied by {gain:g}")
+                if err:
+                    return {"reproduced": True, "detail": err}
+            for kappa in (2.0 ** -5, 2.0 ** 6):
+                try:
+                    got = run_ms(kind, y, fs * kappa, [x * kappa for x in sel])
+                except Exception as ex:      # noqa: BLE001
+                    return {"reproduced": True, "detail": f"{kind}: sampling frequency x {kappa:g} raises {type(ex).__name__}: {ex} (the original run succeeds)"}
+                want = {k_: (v * kappa if k_ in ("Fn_poles", "freq", "Fn") else v) for k_, v in base.items()}
+                err = _c08_same_tables(want, got, 1e-6 if kind[:4] == "EFDD" else 1e-7, f"{kind}: sampling frequency declared {kappa:g} times higher")
+                if err:
+                    return {"reproduced": True, "detail": err}
+    never = sorted((set(algs()) | set(ms_algs())) - ran)
     if never:
         # a variant whose untransformed run never succeeds was not examined at all: the driver says so instead of passing silently
         raise RuntimeError(f"c08_meta explored nothing for {never}: {[skipped.get(k_) for k_ in never]}")
-    return {"reproduced": False, "detail": f"{ntr} data sets x 11 algorithm variants (periodogram and correlogram spectra; cov_mm / cov_R / data-driven Hankel matrices): pole tables and extracted modes covariant under gain (2^-34 .. 2^30 exact, 3.7e-6, 4.2e5), time unit (2^-5, 2^6) and a channel permutation; shapes unit-normalised"}
+    return {"reproduced": False, "detail": f"{ntr} data sets x 11 single-setup algorithm variants (periodogram and correlogram spectra; cov_mm / cov_R / data-driven Hankel matrices) and 7 multi-setup variants (gain and time unit only): pole tables and extracted modes covariant under gain (2^-34 .. 2^30 exact, 3.7e-6, 4.2e5), time unit (2^-5, 2^6), a channel permutation and a random orthogonal mixing; shapes unit-normalised"}
 
 
 
